@@ -3,11 +3,23 @@
 use crate::util::{Ctx, Report};
 use serde_json::Value;
 
+pub mod bytesgen;
+pub mod c02;
+pub mod c03;
+pub mod c07;
 pub mod c12;
+pub mod codec;
 
 pub fn run(prop: &str, leg: &str, ctx: &Ctx, rep: &mut Report) -> bool {
     match (prop, leg) {
         ("selftest", _) => crate::selftest::run(ctx, rep),
+        ("C02", "differential") => c02::differential(ctx, rep),
+        ("C02", "boundary") => c02::boundary(ctx, rep),
+        ("C03", "decoders") => c03::decoders(ctx, rep),
+        ("C03", "verify-hostile") => c03::verify_hostile(ctx, rep),
+        ("C07", "small-exhaustive") => c07::small_exhaustive(ctx, rep),
+        ("C07", "compress-sweep") => c07::compress_sweep(ctx, rep),
+        ("C07", "cursor") => c07::cursor(ctx, rep),
         ("C12", "exhaustive") => c12::exhaustive(ctx, rep),
         _ => return false,
     }
@@ -20,6 +32,9 @@ pub fn replay(v: &Value) -> bool {
     let r = &v["replay"];
     match prop {
         "C12" => c12::replay(r),
+        "C07" => codec::replay(r),
+        "C03" => c03::replay(r),
+        "C02" => c02::replay(r),
         _ => {
             eprintln!("no replay for {}", prop);
             false
